@@ -348,6 +348,22 @@ def applyMods (m : Msg6) : List Mod6 → Res Msg6
 
 /-! ### message builders -/
 
+/-- `iana.HWTypeEthernet` -/
+def hwTypeEthernet : Nat := 1
+
+/-- `NewSolicit(hwaddr, modifiers...)`; `xid` is the transaction id drawn by
+`NewMessage()`, `time` the value of `GetTime()` (seconds since 2000-01-01, the
+time field of the DUID-LLT).  The three options are added before the length of
+the hardware address is tested; a short address is an error either way.
+`WithIAID(last four octets)` runs before the caller's modifiers. -/
+def newSolicit (xid : Bytes) (time : Nat) (hw : Bytes) (mods : List Mod6) : Res Msg6 :=
+  if hw.length < 4 then .err
+  else
+    applyMods
+      (.msg mtSolicit xid
+        [.clientID (.llt hwTypeEthernet time hw), .oro [ocDNS, ocDomainSearchList], .elapsed 0])
+      (.iaid (hw.drop (hw.length - 4)) :: mods)
+
 /-- `NewAdvertiseFromSolicit(sol, modifiers...)` -/
 def newAdvertiseFromSolicit (sol : Msg6) (mods : List Mod6) : Res Msg6 :=
   match sol with
